@@ -37,6 +37,7 @@ type c22Local struct {
 }
 
 func c22() int {
+	tuneRuntime()
 	r := ev.Start("C22", ev.LevelExploration, 100*time.Second, 15*time.Minute)
 	sp := numscriptSpace(r.Thorough())
 	samples := ev.NewSamples(6)
